@@ -75,22 +75,16 @@ def compare_loaded(ctx, name, t2, src, cfg, wr, desc):
                             '%r, write happened in [%s, %s]; case=%r' %
                             (cd, lo, hi, desc))
         ctx.count('date_omitted_checked')
-    if cfg['group_md']:
-        og = t2.group_metadata(axis='observation') or {}
-        sg = t2.group_metadata(axis='sample') or {}
-        exp_o = {'tree': '((a:0.1,b:0.2)é,c);',
-                 'relationships': 'x -> y; "q"'}
-        exp_s = {'graph': '{"a": [1, 2]}'}
-        if dict(og) != exp_o or dict(sg) != exp_s:
-            raise Violation('C01/group-metadata', 'read back %r / %r, '
-                            'written %r / %r; case=%r' % (og, sg, exp_o,
-                                                          exp_s, desc))
-        ctx.count('group_metadata_checked')
-    else:
-        for ax in ('observation', 'sample'):
-            if t2.group_metadata(axis=ax):
-                raise Violation('C01/group-metadata', 'group metadata '
-                                'appeared from nowhere; case=%r' % (desc,))
+    # text payload of every group-metadata entry the written table carried
+    for ax in ('observation', 'sample'):
+        got = {k: v for k, v in (t2.group_metadata(axis=ax) or {}).items()}
+        exp = wr['group_md'][ax]
+        if got != exp:
+            raise Violation('C01/group-metadata', '%s group metadata read '
+                            'back %r, written %r; case=%r' % (ax, got, exp,
+                                                              desc))
+        if exp:
+            ctx.count('group_metadata_checked')
 
 
 def run_case(ctx, index):
@@ -100,6 +94,10 @@ def run_case(ctx, index):
     t, src, desc, cfg, path, r = g
     wr = _hdf5.write(ctx, t, cfg, path)
     ctx.count('files_written')
+    wr['group_md'] = {
+        ax: {k: (v[1] if isinstance(v, (tuple, list)) else v)
+             for k, v in (t.group_metadata(axis=ax) or {}).items()}
+        for ax in ('observation', 'sample')}
     after = snap.snap(t)
     d = snap.diff(after, src)
     if d:
